@@ -545,10 +545,30 @@ func oracleC12(f *sessionFam, w *World, res *Result) []Violation {
 			}
 		}
 		gone := w.evs(a, "c-gone")
+		// (a client whose own request - a heartbeat sent in the instant of the close - was refused because the session
+		// had just closed gives up there and then, as real clients do: it did not keep reading, whatever the response
+		// that was on its way to it carries)
+		gaveUp := len(gone) > 0 && (strings.HasPrefix(gone[0].S, "post status") || strings.HasPrefix(gone[0].S, "poll status"))
 		if clientOK && (len(gone) == 0 || gone[0].Seq > ce.Seq || strings.HasPrefix(gone[0].S, "server sent close") || strings.HasPrefix(gone[0].S, "stream closed")) && onlyApp {
 			recv := map[string]bool{}
 			for _, e := range w.evs(a, "c-recv") {
 				recv[e.S] = true
+			}
+			if gaveUp {
+				// what the server had written into a poll response before the client gave up was delivered as far as the
+				// server is concerned; a response still unwritten at that moment was not
+				for _, r := range w.resps {
+					if r.Client != a || r.Method != "GET" || r.Status != 200 || r.SeqWH == 0 || r.SeqWH > gone[0].Seq {
+						continue
+					}
+					if ps, err := decodePollBody(eioOf(sp), sp.JSONP, r.H.Get("Content-Type"), decodedBody(r)); err == nil {
+						for _, pk := range ps {
+							if k := packetKey(pk); strings.HasPrefix(k, "message|") {
+								recv[strings.TrimPrefix(k, "message|")] = true
+							}
+						}
+					}
+				}
 			}
 			// "accepted before the close": the Send had returned when Close was called.  A Send still in progress in
 			// another goroutine when Close is called may as well count as coming after it (and is then discarded)
